@@ -1031,7 +1031,7 @@ func runDIFFSHORTCUT(c *Ctx) {
 		c.Undecided(step, P.Pos(step.Pos()), "popped items not found", "the diff step does not pop exactly one item from the OLD stack and one from the NEW stack (as found by the side inference)")
 		return
 	}
-	tot := &scTotals{}
+	tot := &scTotals{step: step}
 	for _, b := range bodies {
 		shortcutBody(c, S, b, tot)
 	}
@@ -1044,7 +1044,10 @@ func runDIFFSHORTCUT(c *Ctx) {
 	}
 }
 
-type scTotals struct{ cmps, both int }
+type scTotals struct {
+	cmps, both int
+	step       *ssa.Function
+}
 
 // shortcutBody checks one body of the step (the step itself, or a helper it
 // hands both items to, with the dispatching facts holding on entry).
@@ -1142,6 +1145,17 @@ func shortcutBody(c *Ctx, S *sidesInfo, sb *stepBody, tot *scTotals) {
 		}
 	}
 	tot.cmps += len(cmps)
+	// the links are interface values: a name (string) and the clean in-memory
+	// node loaded from that name are the same node but compare different,
+	// unless the links are normalised to names where items are built
+	if len(cmps) > 0 {
+		if raw, at := sdRawLinkStores(S); len(raw) > 0 {
+			c.Violation(tot.step, P.InstrPos(cmps[0].bin), "links compared as interface values: a clean in-memory node and its name differ",
+				fmt.Sprintf("%s decides `same subtree` by comparing the two links as interface{} values; a link can be a name or an in-memory *mastNode (Clone, an unflushed or just-loaded root), and a clean node with a source is the very node its name denotes: diffing a persisted version with its own clean Clone reads the root and reports it as removed and added. Items are built from un-normalised links at %s", fn.Name(), at), raw...)
+		} else {
+			c.OK(P.InstrPos(cmps[0].bin), "link comparison of "+fn.Name(), "item links are normalised to names where items are built", false)
+		}
+	}
 	// (a) loads of the both-links case lie on an unequal edge
 	nBoth := 0
 	for _, l := range loads {
@@ -1854,6 +1868,10 @@ func (S *sidesInfo) notNotifiedGuard(b *ssa.BasicBlock, notified *ssa.Function, 
 			}
 			cond, truth = u.X, !truth
 		}
+		// the answer: the call itself, or the boolean result of (answer, error)
+		if ex, isEx := cond.(*ssa.Extract); isEx && sdIsBool(ex.Type()) {
+			cond = ex.Tuple
+		}
 		call, ok := cond.(*ssa.Call)
 		if !ok || truth || ir.Callee(call.Call) != notified || len(call.Call.Args) == 0 {
 			continue
@@ -1957,26 +1975,36 @@ func runNOTIFY(c *Ctx) {
 			}
 		}
 	}
-	// (2) alreadyNotified answers false on its error paths (errors tested in
-	// alreadyNotified itself, or in a helper that signals failure with a
-	// false boolean result)
+	// (2) a failure inside alreadyNotified (a load or layer call failing there,
+	// or in a helper that signals failure) is returned as an error: an
+	// answer without the error — "not notified" or "notified" — makes the
+	// caller record or drop the link on the strength of a read that failed
 	nErr := 0
+	nei := ir.ErrorResultIndex(notified.Signature)
 	for _, fe := range sdFailEdges(c, S, notified, 0) {
 		nErr++
+		if nei < 0 {
+			c.Violation(notified, P.InstrPos(fe.at), "failure of "+fe.what+" answered instead of returned",
+				fmt.Sprintf("%s has no error result: when %s fails it can only answer; answering false makes the caller report the link now and — if the store recovers — again later, answering true drops the node from the node diff; the failure must reach the caller as an error", notified.Name(), fe.what))
+			continue
+		}
 		reach := ir.ReachableFrom(fe.to, nil)
 		bad := false
 		for _, r := range ir.Returns(notified) {
-			if !reach[r.Block()] || len(r.Results) == 0 {
+			if !reach[r.Block()] || nei >= len(r.Results) {
 				continue
 			}
-			if k, isC := ir.ConstBool(r.Results[0]); !isC || k {
-				c.Violation(notified, P.InstrPos(r), "error path of "+fe.what+" does not answer false",
-					fmt.Sprintf("when %s fails, %s must answer false (not yet notified) so that the link is still recorded and the caller meets the same error; here it can answer %s: a node is silently left out of the node diff", fe.what, notified.Name(), sdDesc(r.Results[0])))
-				bad = true
+			op := r.Results[nei]
+			switch op.(type) {
+			case *ssa.Call, *ssa.MakeInterface, *ssa.Extract:
+				continue // an error value: the failing call's, or one made here
 			}
+			c.Violation(notified, P.InstrPos(r), "failure of "+fe.what+" not returned as an error",
+				fmt.Sprintf("when %s fails, %s must return the error; here it can return %s with the answer %s: the caller records or drops the link although the read failed", fe.what, notified.Name(), sdDesc(op), sdDesc(r.Results[0])))
+			bad = true
 		}
 		if !bad {
-			c.OK(P.InstrPos(fe.at), "error path of "+fe.what+" in "+notified.Name(), "answers false", false)
+			c.OK(P.InstrPos(fe.at), "failure of "+fe.what+" in "+notified.Name(), "returned as an error", false)
 		}
 	}
 	if nErr == 0 {
@@ -2159,6 +2187,7 @@ func runDIFFREADS(c *Ctx) {
 	}
 	diffReadsSameKey(c, S, step)
 	diffReadsPassThrough(c, S, step)
+	diffReadsEntryVsLink(c, S, step)
 	diffReadsNotified(c, S, notified)
 }
 
@@ -3425,9 +3454,56 @@ func notifyRecords(c *Ctx, S *sidesInfo, notified *ssa.Function, report map[*sdS
 					}
 				}
 			}
-			ifs, other := sdCondIfs(call)
+			var answer ssa.Value = call
+			var nerr ssa.Value
+			if !sdIsBool(call.Type()) {
+				answer = nil
+				if call.Referrers() != nil {
+					for _, r := range *call.Referrers() {
+						if ex, isEx := r.(*ssa.Extract); isEx {
+							if sdIsBool(ex.Type()) && ex.Index == 0 {
+								answer = ex
+							} else if ir.IsErrorType(ex.Type()) {
+								nerr = ex
+							}
+						}
+					}
+				}
+			}
+			if ir.ErrorResultIndex(notified.Signature) >= 0 {
+				// the error comes first: checked, returned, and the answer only used where it is nil
+				kk := &cbpCtx{c: c, S: S, fn: fn}
+				nifs := []nilIf(nil)
+				if nerr != nil {
+					nifs = nilIfsOf(fn, nerr)
+				}
+				if len(nifs) == 0 {
+					c.Violation(fn, pos, "error of "+notified.Name()+" not checked",
+						fmt.Sprintf("%s can fail (a node could not be read); its error is not tested here, so its answer about %s is used although it means nothing", notified.Name(), sdDesc(link)))
+					continue
+				}
+				if kk.errIdx() >= 0 {
+					for _, ni := range nifs {
+						kk.mustFail("error of "+notified.Name(), nerr, ni.nonNil, nil, call)
+					}
+				}
+			}
+			if answer == nil {
+				c.Violation(fn, pos, "answer of "+notified.Name()+" not used",
+					fmt.Sprintf("%s is asked about %s (which memoises the link) but its answer does not decide anything: the link is never recorded for the link callback", notified.Name(), sdDesc(link)))
+				continue
+			}
+			ifs, other := sdCondIfs(answer)
+			if nerr != nil {
+				for _, i := range ifs {
+					if !nilFactOn(i.If.Block(), nerr, true) {
+						c.Violation(fn, pos, "answer of "+notified.Name()+" used before its error is checked",
+							fmt.Sprintf("the answer about %s is tested on a path on which the error of %s is not known to be nil", sdDesc(link), notified.Name()))
+					}
+				}
+			}
 			if len(ifs) == 0 {
-				if other && sdOnlyReturned(call) {
+				if other && sdOnlyReturned(answer) {
 					c.Undecided(fn, pos, "answer of "+notified.Name()+" handed on", "the answer is returned to the caller; the rule expects the recording next to the question")
 				} else {
 					c.Violation(fn, pos, "answer of "+notified.Name()+" not used",
@@ -3723,4 +3799,199 @@ func stepBodies(c *Ctx, S *sidesInfo, step *ssa.Function) ([]*stepBody, bool) {
 		}
 	}
 	return out, true
+}
+
+// sdRawLinkStores lists the stores into the link field of a stack item whose
+// value is not normalised to a name: normalised means that the clean
+// in-memory node case has been replaced by `*node.source` (a φ with such an
+// alternative, or the result of a function of the diff all of whose returns
+// are normalised).
+func sdRawLinkStores(S *sidesInfo) (raw []string, at string) {
+	var fromSource func(v ssa.Value, d int) bool
+	fromSource = func(v ssa.Value, d int) bool {
+		if d > 6 {
+			return false
+		}
+		v = ir.ResolveCell(ir.Strip(v))
+		if u, ok := v.(*ssa.UnOp); ok && u.Op == token.MUL {
+			if fa, ok := u.X.(*ssa.FieldAddr); ok && ir.FieldName(fa.X.Type(), fa.Field) == "source" && ir.IsPtrToNamed(fa.X.Type(), "mastNode") {
+				return true
+			}
+			return fromSource(u.X, d+1)
+		}
+		return false
+	}
+	var normalised func(v ssa.Value, d int) bool
+	normalised = func(v ssa.Value, d int) bool {
+		if d > 3 {
+			return false
+		}
+		v = ir.ResolveCell(ir.Strip(v))
+		switch x := v.(type) {
+		case *ssa.Phi:
+			for _, e := range x.Edges {
+				if fromSource(e, 0) || normalised(e, d+1) {
+					return true
+				}
+			}
+		case *ssa.Call:
+			cal := ir.Callee(x.Call)
+			if cal == nil || !S.slice[cal] {
+				return false
+			}
+			rets := ir.Returns(cal)
+			if len(rets) == 0 {
+				return false
+			}
+			for _, r := range rets {
+				if len(r.Results) == 0 || !(fromSource(r.Results[0], 0) || normalised(r.Results[0], d+1)) {
+					// a return that hands the argument back unchanged is fine if another does normalise
+					continue
+				}
+				return true
+			}
+		}
+		return false
+	}
+	for _, fn := range S.fns {
+		for _, b := range fn.Blocks {
+			for _, ins := range b.Instrs {
+				st, ok := ins.(*ssa.Store)
+				if !ok {
+					continue
+				}
+				fa, ok := st.Addr.(*ssa.FieldAddr)
+				if !ok || fa.Field != S.itemLinkF {
+					continue
+				}
+				if n, _ := sdNamedStruct(fa.X.Type()); n == nil || n.Obj() != S.itemT.Obj() {
+					continue
+				}
+				if _, isC := st.Val.(*ssa.Const); isC {
+					continue
+				}
+				if !normalised(st.Val, 0) {
+					pos := S.P.InstrPos(st)
+					raw = append(raw, fmt.Sprintf("%s in %s stores %s", pos, ir.FuncName(fn), sdDesc(st.Val)))
+					if at == "" {
+						at = ir.FuncName(fn)
+					} else if !strings.Contains(at, ir.FuncName(fn)) {
+						at += ", " + ir.FuncName(fn)
+					}
+				}
+			}
+		}
+	}
+	return
+}
+
+// diffReadsEntryVsLink: where an entry of one side faces a link of the other,
+// the link is loaded only after it has been compared with the next link of the
+// entry's side (the item below the entry on that stack): if they are the same
+// the subtree is common to both versions and must be left for the equal-link
+// shortcut, not descended into.
+func diffReadsEntryVsLink(c *Ctx, S *sidesInfo, step *ssa.Function) {
+	P := c.P
+	bodies, ok := stepBodies(c, S, step)
+	if !ok {
+		return
+	}
+	const construct = "entry-vs-link step loads a link without comparing it with the other side's next link"
+	n := 0
+	for _, sb := range bodies {
+		for _, sd := range sb.sides() {
+			if sd.other == nil {
+				continue
+			}
+			otherStack := sb.oldStack
+			if sd.s == sdOld {
+				otherStack = sb.newStack
+			}
+			// what looks at the other stack without popping this step's item
+			var peeks []*ssa.Call
+			for _, ci := range CallsOf(sb.fn) {
+				call, isCall := ci.(*ssa.Call)
+				cal := ir.Callee(ci.Common())
+				if !isCall || cal == nil || !S.slice[cal] || ssa.Value(call) == sb.old || ssa.Value(call) == sb.new {
+					continue
+				}
+				if _, isTuple := call.Type().(*types.Tuple); isTuple && call.Type().(*types.Tuple).Len() == 0 {
+					continue
+				}
+				for _, a := range ci.Common().Args {
+					if sl := S.slotRef(a); sl != nil && sl == otherStack {
+						peeks = append(peeks, call)
+						break
+					}
+				}
+			}
+			type cmpE struct {
+				eqTo *ssa.BasicBlock
+				peek *ssa.Call
+			}
+			var cmps []cmpE
+			for _, b := range sb.fn.Blocks {
+				for _, ins := range b.Instrs {
+					bin, isB := ins.(*ssa.BinOp)
+					if !isB || (bin.Op != token.EQL && bin.Op != token.NEQ) {
+						continue
+					}
+					x, y := bin.X, bin.Y
+					if S.linkOfItem(y, sd.item) {
+						x, y = y, x
+					}
+					if !S.linkOfItem(x, sd.item) {
+						continue
+					}
+					root := sdAccessRoot(y)
+					for _, pk := range peeks {
+						if root != ssa.Value(pk) {
+							continue
+						}
+						ifs, _ := sdCondIfs(bin)
+						for _, i := range ifs {
+							to := i.OnTrue
+							if bin.Op == token.NEQ {
+								to = i.OnFalse
+							}
+							cmps = append(cmps, cmpE{to, pk})
+						}
+					}
+				}
+			}
+			for _, ci := range CallsOf(sb.fn) {
+				if sb.deleg[ci] || ir.DeadByConst(ci.Block()) {
+					continue
+				}
+				ml, name := sdMayLoad(c, ci)
+				if !ml {
+					continue
+				}
+				if S.itemState(sb, ci.Block(), sd.item, sd.itemSt) != isLink || S.itemState(sb, ci.Block(), sd.other, sd.otherSt) != isEntry {
+					continue
+				}
+				n++
+				okLoad := false
+				for _, ce := range cmps {
+					pk := ce.peek
+					if ir.ReachableFrom(ce.eqTo, nil)[ci.Block()] {
+						continue
+					}
+					if ir.MustPass(ci, func(ins ssa.Instruction) bool { return ins == ssa.Instruction(pk) }) {
+						okLoad = true
+					}
+				}
+				pos := P.InstrPos(ci)
+				if okLoad {
+					c.OK(pos, fmt.Sprintf("load by %s of the %s link facing an entry in %s", name, sd.s, sb.fn.Name()), "only after the link was compared with the next link of the entry's side and found different", false)
+				} else {
+					c.Violation(step, pos, construct,
+						fmt.Sprintf("in %s an entry of one side faces a link of the %s side, and %s reads that link's node without first comparing the link with the next link on the entry's stack: when that is the same link, the subtree is common to both versions, yet it is descended into — the reads grow with the height of the shared subtree (D=2 but 7 reads in the demo) instead of being skipped by the equal-link shortcut", sb.fn.Name(), sd.s, name))
+				}
+			}
+		}
+	}
+	if n == 0 {
+		c.Undecided(step, P.Pos(step.Pos()), "no entry-vs-link load", "the rule found no node load in a region where one item is an entry and the other a link")
+	}
 }
